@@ -156,6 +156,36 @@ func proveSite(p *core.Pather, s panicSite) string {
 		if guardHolds(conds, "("+i+">="+ln+")=F", "("+i+"<"+ln+")=T", "("+ln+"<="+i+")=F", "("+ln+">"+i+")=T") {
 			return "index guarded by i < len(base)"
 		}
+		// an array of N elements indexed under a dominating i < N (a range over the array itself)
+		{
+			var xt types.Type
+			if ia, ok := x.(*ssa.IndexAddr); ok {
+				xt = ia.X.Type()
+			} else {
+				xt = x.(*ssa.Index).X.Type()
+			}
+			if pt, ok := xt.Underlying().(*types.Pointer); ok {
+				xt = pt.Elem()
+			}
+			if at, ok := xt.Underlying().(*types.Array); ok {
+				n := fmt.Sprint(at.Len())
+				if guardHolds(conds, "("+i+">="+n+")=F", "("+i+"<"+n+")=T") {
+					return "array index guarded by i < its constant length"
+				}
+			}
+		}
+		// r[N>>3] of r = GetBitString(src, off, N) where N is not a multiple of 8: floor(N/8) < ceil(N/8) = len(r)
+		if pre := "call:" + pAper + ".GetBitString("; strings.HasPrefix(s.base, pre) && strings.HasSuffix(s.base, ")#0") {
+			args := strings.TrimSuffix(strings.TrimPrefix(s.base, pre), ")#0")
+			if k := strings.LastIndex(args, ","); k >= 0 {
+				n := args[k+1:]
+				if i == "("+n+">>3)" || i == "("+n+"/8)" {
+					if guardHolds(conds, "(("+n+"&7)!=0)=T", "(("+n+"&7)==0)=F", "(("+n+"%8)!=0)=T", "(("+n+"%8)==0)=F", "(("+n+"&7)>0)=T", "(("+n+"%8)>0)=T") {
+						return "partial last octet of a GetBitString result, read only when numBits is not a multiple of 8"
+					}
+				}
+			}
+		}
 		// constant index k under a dominating `len(base) < C` = false (or `>= C` = true) with C > k
 		if k, isK := core.ConstInt(idx); isK && k >= 0 {
 			for _, cnd := range conds {
@@ -205,6 +235,20 @@ func proveSite(p *core.Pather, s panicSite) string {
 					// low bound: lo is a summand of hi (lo <= hi for unsigned offsets) or absent
 					if lo == "" || strings.HasPrefix(hi, "("+lo+"+") || strings.HasSuffix(hi, "+"+lo+")") {
 						return "slice guarded by hi <= len(base), lo a summand of hi"
+					}
+				}
+			}
+		}
+		// r[:N>>3] / r[:N/8] of r = GetBitString(src, off, N): the result has ceil(N/8) octets (R14.alloc
+		// checks the allocation), and floor(N/8) <= ceil(N/8)
+		if lo == "" && hi != "" {
+			pre := "call:" + pAper + ".GetBitString("
+			if strings.HasPrefix(s.base, pre) && strings.HasSuffix(s.base, ")#0") {
+				args := strings.TrimSuffix(strings.TrimPrefix(s.base, pre), ")#0")
+				if i := strings.LastIndex(args, ","); i >= 0 {
+					n := args[i+1:]
+					if hi == "("+n+">>3)" || hi == "("+n+"/8)" {
+						return "whole octets of a GetBitString result: floor(numBits/8) <= ceil(numBits/8) = its length"
 					}
 				}
 			}
@@ -352,9 +396,48 @@ func structParamsClass(f *ssa.Function, s panicSite) string {
 		return n == "reflect.Value.NumField" || (call.Call.IsInvoke() && call.Call.Method.Name() == "NumField")
 	}
 	// (a) the counter of `for i := 0; i < NumField(); i++`
-	if ph, isPhi := idx.(*ssa.Phi); isPhi {
-		if l := countedLoopOf(ph.Block()); l != nil && l.iv == ph && !l.rng && isNumField(l.bound) {
-			return "i < NumField() (loop bound) and the constraint list has one entry per struct field (moved form of the reference tree's argued site structParams[i])"
+	isFieldCounter := func(v ssa.Value) bool {
+		ph, isPhi := v.(*ssa.Phi)
+		if !isPhi {
+			return false
+		}
+		l := countedLoopOf(ph.Block())
+		return l != nil && l.iv == ph && !l.rng && isNumField(l.bound)
+	}
+	if isFieldCounter(idx) {
+		return "i < NumField() (loop bound) and the constraint list has one entry per struct field (moved form of the reference tree's argued site structParams[i])"
+	}
+	// (a') the same pair handed down to a helper: list and index are parameters, and every caller in the
+	// package passes a constraint list and the field counter of its own loop
+	if ip, isP := idx.(*ssa.Parameter); isP {
+		if bp, isBP := base.(*ssa.Parameter); isBP {
+			bi, ii := -1, -1
+			for k, q := range f.Params {
+				if q == bp {
+					bi = k
+				}
+				if q == ip {
+					ii = k
+				}
+			}
+			callers, okAll := 0, bi >= 0 && ii >= 0
+			if okAll && f.Pkg != nil {
+				for _, g := range allFuncsOf(f.Pkg) {
+					for _, ci := range core.Calls(g) {
+						if ci.Common().StaticCallee() != f {
+							continue
+						}
+						callers++
+						args := ci.Common().Args
+						if bi >= len(args) || ii >= len(args) || !isFieldCounter(args[ii]) {
+							okAll = false
+						}
+					}
+				}
+			}
+			if okAll && callers > 0 {
+				return fmt.Sprintf("every caller (%d) hands this helper the constraint list and the field counter of a loop bounded by NumField() (moved form of the reference tree's argued site structParams[i])", callers)
+			}
 		}
 	}
 	// (b) the CHOICE index: (a phi of 0 and) getChoiceIndex's result, compared with NumField() on a dominating branch
@@ -388,6 +471,24 @@ func structParamsClass(f *ssa.Function, s panicSite) string {
 			return true
 		case *ssa.BinOp:
 			if x.Op == token.ADD {
+				// the index of a `for i := range s` loop: i = iv+1 with iv = phi(-1, i)
+				if one, isK := core.ConstInt(x.Y); isK && one == 1 {
+					if ph, isPhi := x.X.(*ssa.Phi); isPhi && len(ph.Edges) >= 2 {
+						okR, sawInit, sawBack := true, false, false
+						for _, e := range ph.Edges {
+							if init, isI := core.ConstInt(e); isI && init == -1 {
+								sawInit = true
+							} else if e == ssa.Value(x) {
+								sawBack = true
+							} else {
+								okR = false
+							}
+						}
+						if okR && sawInit && sawBack {
+							return true
+						}
+					}
+				}
 				return nonNeg(x.X, seen, depth) && nonNeg(x.Y, seen, depth)
 			}
 		case *ssa.Convert:
